@@ -679,7 +679,17 @@ impl World {
                 }
                 return true;
             }
-            Kind::Sgdt { .. } | Kind::Sidt { .. } | Kind::Int3 => return false,
+            Kind::Sgdt { addr } | Kind::Sidt { addr } => {
+                // the simulated GDTR / IDTR, not the host's (ring 3 may execute these natively unless
+                // UMIP is on): a read-back after lgdt / lidt sees what was loaded
+                if !readable(addr, 10) {
+                    return false;
+                }
+                let r = if matches!(kind, Kind::Sgdt { .. }) { &self.cpu.gdtr } else { &self.cpu.idtr };
+                (addr as *mut u16).write_unaligned(r.limit);
+                ((addr + 2) as *mut u64).write_unaligned(r.base);
+            }
+            Kind::Int3 => return false,
         }
         ctx.set_rip(next);
         true
@@ -728,7 +738,7 @@ impl World {
             self.cpu.at_boundary(rip);
             let bytes = core::slice::from_raw_parts(rip as *const u8, 15);
             match decode::decode(bytes, ctx) {
-                Some(insn) if !matches!(insn.kind, Kind::Int3 | Kind::Sgdt { .. } | Kind::Sidt { .. }) => {
+                Some(insn) if !matches!(insn.kind, Kind::Int3) => {
                     if !self.emulate(ctx, insn.kind, insn.len) {
                         return;
                     }
